@@ -14,7 +14,6 @@ I32MIN, I32MAX, U32MAX = -2**31, 2**31 - 1, 2**32 - 1
 # ---------------------------------------------------------------- known findings (sites/classes)
 # (five earlier findings - operator< / >, += / -= self-alias, QField::inv(r,r), Rational(0,d,0), Rational(double) negative
 #  subnormal - are repaired in /repo; their sites are judged like every other site now)
-S_I64 = ("Rational(int64_t n, int64_t d)", "d < 0 and n or d = INT64_MIN")
 
 
 def merge_frag_findings():
@@ -220,9 +219,7 @@ def build_cases(rng, tier, cov):
         pd = rng.choice(edges64) if rng.chance(1, 2) else rng.range(I64MIN, I64MAX)
         if rng.chance(1, 3):
             g = rng.range(1, 2**20); pn, pd = rng.range(-2**40, 2**40) * g, rng.range(-2**40, 2**40) * g
-        bad = pd < 0 and (pn == I64MIN or pd == I64MIN)
-        add("ctor.i64pair", 1, [pn, pd], "mk_i64", [pn, pd], "throw" if pd == 0 else "ratc", None if pd == 0 else Fraction(pn, pd),
-            S_I64[0] if bad else None, S_I64[1] if bad else "")
+        add("ctor.i64pair", 1, [pn, pd], "mk_i64", [pn, pd], "throw" if pd == 0 else "ratc", None if pd == 0 else Fraction(pn, pd))
         qn, qd = rng.choice([0, 1, -1, I32MIN, I32MAX, 6, -6, rng.range(I32MIN, I32MAX)]), rng.choice([0, 1, -1, I32MIN, I32MAX, 4, -4, rng.range(I32MIN, I32MAX)])
         add("ctor.i32pair", 1, [qn, qd], "mk_i64", [qn, qd], "throw" if qd == 0 else "ratc", None if qd == 0 else Fraction(qn, qd))
         un, ud = rng.choice([0, 1, U64MAX, 2**63, 6, rng.range(0, U64MAX)]), rng.choice([0, 1, U64MAX, 2**63, 4, rng.range(0, U64MAX)])
@@ -387,8 +384,8 @@ def directed_cases():
     add("ctor.double", 1, ["0000000000000001"], "of_double", [0, 0, 1], "rat", Fraction(1, 2**1074))
     add("ctor.double", 1, ["8000000000000000"], "of_double", [1, 0, 0], "rat", Fraction(0))
     add("ctor.double", 1, ["800fffffffffffff"], "of_double", [1, 0, 2**52 - 1], "rat", Fraction(-(2**52 - 1), 2**1074))
-    add("ctor.i64pair", 1, [1, I64MIN], "mk_i64", [1, I64MIN], "ratc", Fraction(1, I64MIN), S_I64)
-    add("ctor.i64pair", 1, [I64MIN, -1], "mk_i64", [I64MIN, -1], "ratc", Fraction(I64MIN, -1), S_I64)
+    add("ctor.i64pair", 1, [1, I64MIN], "mk_i64", [1, I64MIN], "ratc", Fraction(1, I64MIN))
+    add("ctor.i64pair", 1, [I64MIN, -1], "mk_i64", [I64MIN, -1], "ratc", Fraction(I64MIN, -1))
     add("ctor.i64pair", 1, [I64MIN, 2], "mk_i64", [I64MIN, 2], "ratc", Fraction(I64MIN, 2))
     add("ctor.i64pair", 1, [0, -7], "mk_i64", [0, -7], "ratc", Fraction(0))
     return cs
